@@ -25,6 +25,7 @@ DECIDED = [
     "set before the normal list on every poll; RabbitMQ's delayed queue dead-letters into the main queue",
     "R-C05-CMP (elapsed): a deferred_until that has passed is not handed out again as next execution time (C06's first-run rule reused)",
     "R-C05-CMP (one clock): the in-memory refresh reads the clock exactly once, into a plain `now`",
+    "R-C05-POLL (round 5): the Redis delayed scan ends only on an empty page (a due message behind a full page of foreign entries is still found); R-C05-ROUTE: category comparisons by equality",
 ]
 NOT_DECIDED = ["the delivery latency bound after T (timing)", "RabbitMQ per-message TTL head-of-line blocking (server behaviour)"]
 ASSUMPTIONS = ["Redis ZRANGE BYSCORE -inf..now returns only members with score <= now", "RabbitMQ dead-letters expired messages of a queue to its DLX routing key"]
@@ -35,6 +36,9 @@ RABBIT_UTILS = "repid.connections.rabbitmq.utils"
 
 
 def run(ctx: Ctx) -> None:
+    from .shared import category_equality
+
+    category_equality(ctx, "R-C05-ROUTE")
     route_rules(ctx, "R-C05-ROUTE", ("enqueue", "requeue", "reject"))
     helper_siblings(ctx, "R-C05-ROUTE")
     from .brokers import redis_source_rules
@@ -46,6 +50,9 @@ def run(ctx: Ctx) -> None:
     whole_duration_rule(ctx, "R-C05-ROUND")
     compare(ctx, "R-C05-CMP")
     poll(ctx, "R-C05-POLL")
+    from .brokers import redis_scan_exhaustive
+
+    redis_scan_exhaustive(ctx, "R-C05-POLL")  # bounded latency: a due message behind a full page of other topics' entries is still found
     from .C06 import first_run
 
     first_run(ctx, "R-C05-CMP")  # a due time that has already passed is not handed out again as "next execution time" (the successor would run at once, not a period later)
